@@ -5,7 +5,7 @@ use std::io::{BufRead, Write};
 use std::panic::{catch_unwind, AssertUnwindSafe};
 
 pub const WIDTHS: &[usize] = &[
-    0, 1, 2, 3, 5, 7, 8, 9, 16, 31, 33, 60, 63, 64, 65, 66, 96, 127, 128, 129, 130, 190, 192, 250,
+    0, 1, 2, 3, 4, 5, 7, 8, 9, 16, 31, 33, 60, 63, 64, 65, 66, 96, 127, 128, 129, 130, 190, 192, 250,
     255, 256, 257, 320, 384, 512, 520, 536, 1024, 1030, 2048, 4096,
 ];
 
@@ -14,7 +14,7 @@ pub const WIDTHS: &[usize] = &[
 macro_rules! with_bits {
     ($bits:expr, $f:ident $args:tt) => {
         $crate::with_bits!(@m $bits, $f $args;
-            0 0, 1 1, 2 1, 3 1, 5 1, 7 1, 8 1, 9 1, 16 1, 31 1, 33 1, 60 1, 63 1, 64 1, 65 2,
+            0 0, 1 1, 2 1, 3 1, 4 1, 5 1, 7 1, 8 1, 9 1, 16 1, 31 1, 33 1, 60 1, 63 1, 64 1, 65 2,
             66 2, 96 2, 127 2, 128 2, 129 3, 130 3, 190 3, 192 3, 250 4, 255 4, 256 4, 257 5,
             320 5, 384 6, 512 8, 520 9, 536 9, 1024 16, 1030 17, 2048 32, 4096 64)
     };
